@@ -79,7 +79,7 @@ def main():
         dst = os.path.join(ROOT, 'seeded', name)
         os.makedirs(dst, exist_ok=True)
         for f in ('patch.diff', 'demo.py', 'notes.md'):
-            if os.path.exists(os.path.join(src, f)):
+            if os.path.exists(os.path.join(src, f)) and os.path.abspath(src) != os.path.abspath(dst):
                 shutil.copy(os.path.join(src, f), os.path.join(dst, f))
         old = {}
         mp = os.path.join(dst, 'meta.json')
